@@ -66,6 +66,88 @@ func (p *Prog) stringValues(v ssa.Value, depth int) (vals []string, ok bool) {
 		}
 		return uniq(vals), true
 	case *ssa.UnOp, *ssa.Field:
+		// a field of a struct value that a constructor of the repository has just built from its parameters
+		// (metrics.Tag(name, value).Value), directly or through a local variable the struct was assigned to: the
+		// argument of that call
+		ctorArg := func(v ssa.Value, fv *types.Var) ssa.Value {
+			call, ok := resolve(v).(*ssa.Call)
+			if !ok {
+				return nil
+			}
+			sc := call.Common().StaticCallee()
+			if sc == nil || sc.Blocks == nil || sc.Pkg == nil || !strings.HasPrefix(sc.Pkg.Pkg.Path(), modPath) || len(sc.Blocks) != 1 {
+				return nil
+			}
+			ret, ok := sc.Blocks[0].Instrs[len(sc.Blocks[0].Instrs)-1].(*ssa.Return)
+			if !ok || len(ret.Results) != 1 {
+				return nil
+			}
+			ld, ok := ret.Results[0].(*ssa.UnOp)
+			if !ok || ld.Op != token.MUL {
+				return nil
+			}
+			al, ok := ld.X.(*ssa.Alloc)
+			if !ok {
+				return nil
+			}
+			for _, ref := range *al.Referrers() {
+				fa, ok := ref.(*ssa.FieldAddr)
+				if !ok || fieldOf(fa) != fv {
+					continue
+				}
+				for _, r2 := range *fa.Referrers() {
+					if st, ok := r2.(*ssa.Store); ok && st.Addr == ssa.Value(fa) {
+						if prm, ok := st.Val.(*ssa.Parameter); ok && paramIndex(prm) < len(call.Common().Args) {
+							return call.Common().Args[paramIndex(prm)]
+						}
+					}
+				}
+			}
+			return nil
+		}
+		if fx, ok := x.(*ssa.Field); ok {
+			if a := ctorArg(fx.X, fieldOfField(fx)); a != nil {
+				return p.stringValues(a, depth+1)
+			}
+		}
+		if ld, ok := x.(*ssa.UnOp); ok && ld.Op == token.MUL {
+			if fa, ok := ld.X.(*ssa.FieldAddr); ok {
+				if cell, ok := fa.X.(*ssa.Alloc); ok {
+					all, n := true, 0
+					for _, ref := range *cell.Referrers() {
+						switch y := ref.(type) {
+						case *ssa.Store:
+							if y.Addr != ssa.Value(cell) {
+								all = false
+								continue
+							}
+							a := ctorArg(y.Val, fieldOf(fa))
+							if a == nil {
+								all = false
+								continue
+							}
+							s, ok := p.stringValues(a, depth+1)
+							if !ok {
+								all = false
+								continue
+							}
+							n++
+							vals = append(vals, s...)
+						case *ssa.FieldAddr:
+							for _, r2 := range *y.Referrers() {
+								if st, ok := r2.(*ssa.Store); ok && st.Addr == ssa.Value(y) && fieldOf(y) == fieldOf(fa) {
+									all = false
+								}
+							}
+						}
+					}
+					if all && n > 0 {
+						return uniq(vals), true
+					}
+					vals = nil
+				}
+			}
+		}
 		// a struct field: every value stored into it anywhere (field-based; only if its address is never handed out)
 		var fv *types.Var
 		switch y := x.(type) {
